@@ -154,6 +154,11 @@ def classify(case, tr):
     return key, classes
 
 
+def extra_passes(run, tier, shard, nshards):
+    from props._cc import exhaustive_sweep
+    exhaustive_sweep(run, tier, shard, nshards, lambda case, tr: check(case, tr))
+
+
 REQUIRED_CLASSES = ['overflow', 'call_while_overfull', 'overflow_purge_archived', 'ms_pos:True', 'maxsize:0', 'maxsize:None', 'raising_call', 'overflow_after_raising_call', 'op:sweep', 'op:clearkeep']
 
 TRIGGERS = {}
